@@ -296,3 +296,27 @@ PROPS["C17"] = dict(
     partial="Proved: aliasing/lifetime bookkeeping over all op sequences, no lost update for every schedule of the lock protocol, to_dyn! "
             "arm coverage for every caller feature set from the regenerated table. Trusted: that std's locks implement the protocol.",
 )
+
+PROPS["C19"] = dict(
+    gen=cases.gen_C19,
+    line_mask=cases.line_mask_C19,
+    cross=cases.cross_C19,
+    float_value_eq=True,
+    mask={"cat", "time", "unit", "float"},
+    configs=[(None, "chk"), ("std,devices", "nochk"), ("libm,devices", "nochk")],
+    configs_thorough=[(None, "chk"), ("std,devices", "nochk"), ("libm,chk,devices", "chk"), ("libm,devices", "nochk"),
+                      ("micromath,chk,devices", "chk"), ("micromath,devices", "nochk")],
+    rule="one seeded workload over the whole public API (sub-samples of every other property's generator: quantities incl. "
+         "ill-dimensioned programs, time/integer ops, states, commands, data, every stateless and stateful stream, motion profiles, "
+         "settables, terminals and every device and wrapper) run by the harness rebuilt from /repo under each configuration; every trace "
+         "is compared with the model run with the matching `chk` (floats as VALUES), and the traces are compared with each other: equal "
+         "values and timestamps for well-dimensioned lines, no dimension panic / unit rejection in unchecked builds. Lines whose value "
+         "depends on powf (EWMA, exponent stream) are exempt from value comparison as the property itself exempts them. quick: "
+         "std+chk, std unchecked, alloc+libm unchecked; thorough: all six of {std, alloc+libm, alloc+micromath} x {checked, unchecked}",
+    trusted_base=COMMON_TB + ["rustc's cfg resolution selects the bodies the model assumes for each configuration: exactly what the "
+                              "multi-configuration correspondence tests (not proved)"],
+    assumptions=COMMON_AS + ["powf implementations (std/libm/micromath) are outside the claim, as in the property"],
+    partial="Proved: erasure on the model's configuration switch (checked run succeeds => unchecked run on unit-erased inputs gives the "
+            "same values; unchecked never dimension-panics / rejects; values are plain scalar arithmetic), manual abs = abs. Not proved: "
+            "that rustc's cfg selects those bodies; powf.",
+)
